@@ -67,11 +67,17 @@ def gen_files(r, txn, variants=()):
     """Four rule files of one budget (two .rules, two legacy CSV) plus re-loads of the SAME path: the .rules file with
     the other rule mode, and after an edit that keeps size and (pinned) modification time."""
     files = {}
-    pin = r.choice([None, None, 1700000000])
+    pin = r.choice([None, 1700000000, 1700000000])
     for name in ('A', 'B'):
         f = GR.gen_rules_file(r, txn, n=r.choice([1, 2, 3, 4]), dup_names=r.random() < 0.3)
         if variants and r.random() < 0.7:
             f = RC.with_discriminators(f, txn, list(variants), r)
+        words = [w for w in txn['description'].upper().split() if w.isalnum()]
+        if words and r.random() < 0.6:
+            # two rules true of the base line on which the two rule modes disagree (file order vs specificity)
+            w = r.choice(words)
+            f['rules'] = [{'name': 'General', 'match': f'contains("{w}")', 'category': 'ByOrder', 'subcategory': 'G'},
+                          {'name': 'Specific', 'match': f'contains("{w}") and amount == amount', 'category': 'BySpecificity', 'subcategory': 'S'}] + f['rules']
         files[name] = {'k': 'load', 'kind': 'rules', 'name': name, 'text': GR.render_rules(f), 'mode': r.choice(['first_match', 'most_specific']),
                        'order': r.choice(['rt', 'tr'])}
         if pin:
